@@ -124,6 +124,7 @@ type State struct {
 	apps    []appRec
 	log     []Event
 	version int // bumped on any externally visible effect
+	wlog    []int // ids of cells written (stores), in order
 	written map[*Cell]bool
 }
 
@@ -138,6 +139,7 @@ func (s *State) fork() *State {
 		ax:      s.ax[:len(s.ax):len(s.ax)],
 		apps:    s.apps[:len(s.apps):len(s.apps)],
 		log:     s.log[:len(s.log):len(s.log)],
+		wlog:    s.wlog[:len(s.wlog):len(s.wlog)],
 		version: s.version,
 	}
 	for k, v := range s.store {
